@@ -501,6 +501,7 @@ def worker_case(rec: Recorder, job: dict, exit_obj: Any, sub_map: dict[str, list
             if r["exit"] != want:
                 f1 = r["exit"] == 0 and has_error and any(": error:" in m and ": note:" in m for m in r["messages"])
                 res["problems"].append({"kind": "exit", "f1": f1, "label": label, "exit": r["exit"], "expected": want,
+                                        "json_notes": label == "output-json" and r["exit"] == 1 and want == 0,
                                         "messages": r["messages"][:6]})
 
         try:
@@ -516,6 +517,18 @@ def worker_case(rec: Recorder, job: dict, exit_obj: Any, sub_map: dict[str, list
             res["skipped"] = "too many messages (many_errors_threshold region not modelled)"
             return res
         cfA = cfgs_of(A)
+        # the output format does not change which messages are reported, and the exit status stays truthful
+        for label, extra in (("output-json", ["--output=json"]), ("pretty", ["--pretty"])):
+            try:
+                R = build(text, extra)
+            except Exception as e:  # noqa: BLE001
+                res["problems"].append({"kind": "crash", "label": label, "exc": repr(e)[:300]})
+                continue
+            check_exit(R, label)
+            res["kinds"][label] = res["kinds"].get(label, 0) + 1
+            if actual_maps(R) != actual_maps(A) or R["blockers"] != A["blockers"]:
+                res["problems"].append({"kind": "render-changes-messages", "label": label,
+                                        "diff": diff_maps(actual_maps(R)[0], actual_maps(A)[0]), "program": text[:2000]})
         # self-consistency of the base run: actual map = spec(own cfg, own stream)
         repA, genA = actual_maps(A)
         expA, expgA = expected_maps(A, A["stream"], cfgs_of(A), sub_map)
@@ -857,7 +870,8 @@ def corpus(repo: str) -> list[dict]:
     return jobs
 
 
-PINNED = {"check-inline-config.test::testInlineInvert2", "check-inline-config.test::testInlineError1"}
+PINNED = {"check-inline-config.test::testInlineInvert2", "check-inline-config.test::testInlineError1",
+          "check-deprecated.test::testDeprecatedSpecialMethods"}
 
 API_PROGRAMS = [
     ("typeddict-key-note-marker", 'from typing import TypedDict\nclass D(TypedDict):\n    x: int\nd: D = {"x": 1}\nd[": note:"]\n', []),
@@ -870,6 +884,13 @@ API_PROGRAMS = [
     ("ignored-error", "x: int = 'a'  # type: ignore[assignment]\n", ["--warn-unused-ignores"]),
     ("unused-ignore", "x: int = 1  # type: ignore\n", ["--warn-unused-ignores"]),
     ("disabled-code", "x: int = 'a'\n", ["--disable-error-code", "assignment"]),
+    ("json-plain-error", "x: int = 'a'\n", ["--output", "json"]),
+    ("json-error-and-note", "x: int = 'a'\nreveal_type(x)\n", ["--output", "json"]),
+    ("json-only-notes", "reveal_type(1)\n", ["--output", "json"]),
+    ("json-clean", "x: int = 1\n", ["--output", "json"]),
+    ("json-blocker-syntax", "def f(:\n", ["--output", "json"]),
+    ("pretty-plain-error", "x: int = 'a'\n", ["--pretty"]),
+    ("pretty-only-notes", "reveal_type(1)\n", ["--pretty"]),
 ]
 
 
@@ -912,7 +933,7 @@ def run_workers(ctx: Any, jobs: list[dict], nproc: int, timeout: float) -> list[
 # stage C
 # ======================================================================================
 
-POOL = ["attr-defined", "arg-type", "assignment", "method-assign", "misc", "typeddict-item", "typeddict-unknown-key",
+POOL = ["deprecated", "attr-defined", "arg-type", "assignment", "method-assign", "misc", "typeddict-item", "typeddict-unknown-key",
         "import", "import-not-found", "import-untyped", "truthy-bool", "redundant-expr", "literal-required",
         "type-abstract", "override", "unused-ignore", "ignore-without-code", "call-arg", "unused-coroutine"]
 MSGS = ["bad thing", "other thing", 'has no key ": note:"', "x: error: y", "third", "defined here"]
@@ -1117,39 +1138,187 @@ def stage_C(ctx: Any) -> None:
         ctx.cov["driven_streams_with_suppression"] = nontriv
         ctx.cov["driven_features"] = feat
         ctx.sample({"driven_case": cases[3], "impl": impls[3]})
+    stage_C_watch_render(ctx, rng, E, codes_mod, Options, sub_map)
+
+
+PREDS = {"false": ("false", lambda f, i: False), "true": ("true", lambda f, i: True),
+         "even": ("Z.even (iline i)", lambda f, i: i.line % 2 == 0), "error": ("ierror i", lambda f, i: i.severity == "error")}
+
+
+def stage_C_watch_render(ctx: Any, rng: Any, E: Any, codes_mod: Any, Options: Any, sub_map: Any) -> None:
+    """(3) real Errors with a stack of real ErrorWatchers vs Model.run_w (at the regenerated watcher shape);
+    (4) real create_errors / JSONFormatter and format_messages_default(--pretty) vs Model.create_errors / format_text."""
+    import json as _json
+    exprs: list[str] = []
+    metas: list[Any] = []
+    n = ctx.n(500, 3000)
+    wfeat = {"note_filtered_by_watcher": 0, "info_filtered": 0, "has_new_errors": 0}
+    for _ in range(n):
+        case = gen_case(rng, codes_mod, E.original_error_codes)
+        case["thr"] = -1
+        for i in case["infos"]:
+            if rng.random() < 0.25:
+                i["codename"] = "deprecated"
+        if rng.random() < 0.7 and "deprecated" not in case["cfg"]["enabled"]:
+            case["cfg"]["enabled"] = case["cfg"]["enabled"] + ["deprecated"]
+        stack = [(rng.choice(list(PREDS)), rng.random() < 0.5, rng.random() < 0.3) for _ in range(rng.randint(1, 3))]
+        cfg = case["cfg"]
+        o = Options()
+        o.disabled_error_codes = {codes_mod.error_codes[c] for c in cfg["disabled"]}
+        o.enabled_error_codes = {codes_mod.error_codes[c] for c in cfg["enabled"]}
+        o.many_errors_threshold = -1
+        errs = E.Errors(o)
+        f = "f.py"
+        errs.set_file(f, "m", o)
+        if cfg["has_ignores"]:
+            errs.set_file_ignored_lines(f, {l: list(c_) for l, c_ in cfg["ignores"]}, cfg["ignore_all"])
+        elif cfg["ignore_all"]:
+            errs.ignored_files.add(f)
+        ws = []
+        for kind, save, fdep in reversed(stack):     # the head of the model's list is the top of the stack
+            w = E.ErrorWatcher(errs, filter_errors=(PREDS[kind][1] if kind not in ("true", "false") else kind == "true"),
+                               save_filtered_errors=save, filter_deprecated=fdep)
+            w.__enter__()
+            ws.append(w)
+        ws.reverse()
+        objs: dict[int, Any] = {}
+        ids: dict[int, int] = {}
+        for i in case["infos"]:
+            info = E.ErrorInfo(import_ctx=[("imp.py", i["ctx"])] if i["ctx"] else [], local_ctx=(None, None), line=i["line"],
+                               column=i["col"], end_line=i["endline"], end_column=i["endcol"],
+                               severity="error" if i["error"] else "note", message=i["msg"],
+                               code=codes_mod.error_codes[i["codename"]] if i["codename"] else None, blocker=i["blocker"],
+                               only_once=i["once"], module="m", target="t", origin_span=list(i["span"]), priority=i["prio"],
+                               parent_error=objs[i["parent"]] if i["parent"] is not None else None)
+            objs[i["id"]] = info
+            ids[id(info)] = i["id"]
+            errs.add_error_info(info)
+        out = []
+        for x in errs.error_info_map.get(f, []):
+            out.append({"id": ids.get(id(x), -1), "line": x.line, "col": x.column, "endline": x.end_line, "endcol": x.end_column,
+                        "ctx": x.import_ctx[0][1] if x.import_ctx else 0, "prio": x.priority, "hidden": bool(x.hidden),
+                        "span": list(x.origin_span), "code": snap_code(x.code, E.original_error_codes), "error": x.severity == "error",
+                        "blocker": bool(x.blocker), "once": bool(x.only_once), "msg": canon_msg(x.message),
+                        "parent": ids.get(id(x.parent_error), -1) if x.parent_error is not None else None})
+        wobs = [(w.has_new_errors(), [ids.get(id(x), -1) for x in (w._filtered or [])]) for w in ws]
+        if any(-1 in fl for _, fl in wobs):
+            wfeat["note_filtered_by_watcher"] += 1
+        if any(fl for _, fl in wobs):
+            wfeat["info_filtered"] += 1
+        if any(h for h, _ in wobs):
+            wfeat["has_new_errors"] += 1
+        infos = [dict(i, code=full_code(i["codename"], codes_mod, E.original_error_codes)) for i in case["infos"]]
+        cws = clist([f"(mk_w (fun i => {PREDS[k][0]}) {cb(sv)} {cb(fd)} false false [])" for k, sv, fd in stack])
+        cobs = clist([f"({cb(h)}, {clist([cz(x) for x in fl])})" for h, fl in wobs])
+        exprs.append(f"check_watch {c_cfg(dict(cfg, sub_map=sub_map))} {cws} {clist([c_info(x) for x in infos])} "
+                     f"{clist([c_info(x) for x in out])} {cobs}")
+        metas.append({"case": case, "stack": stack, "out": out, "wobs": wobs})
+    res = ctx.eval_cases("watch", COQ_HEADER, exprs, per_file=150)
+    if res is not None:
+        nbad = 0
+        for m, r in zip(metas, res):
+            if r != "[true; true]":
+                nbad += 1
+                if nbad <= 3:
+                    ctx.broke("C", "driven Errors + ErrorWatchers vs model", f"check_watch = {r} (out, watcher observations)", m)
+        ctx.add("evaluations", len(exprs))
+        ctx.add("traces_validated_against_impl", len(exprs))
+        ctx.cov["watcher_streams"] = len(exprs)
+        ctx.cov["watcher_features"] = wfeat
+        ctx.log(f"C: {len(exprs)} streams under ErrorWatcher stacks, {nbad} disagreements")
+    # ---- renderers
+    from mypy.error_formatter import JSONFormatter
+    exprs = []
+    metas = []
+    bad_py = 0
+    m_render = ctx.n(400, 2000)
+    fmt = JSONFormatter()
+    for _ in range(m_render):
+        ts = []
+        for _k in range(rng.randint(0, 7)):
+            sev = "error" if rng.random() < 0.5 else "note"
+            ts.append((rng.choice([None, "a.py", "a.py", "b.py"]), rng.randint(1, 3), rng.choice([0, 4]), rng.randint(1, 3), rng.choice([1, 5]),
+                       sev, rng.choice(MSGS), rng.choice([None, "misc", "arg-type"])))
+        mes = E.create_errors(list(ts))
+        def c_et(t: tuple) -> str:
+            return (f"(mk_et {copt(cs(t[0]) if t[0] is not None else None)} {cz(t[1])} {cz(t[2])} {cz(t[3])} {cz(t[4])} "
+                    f"{cb(t[5] == 'error')} {cs(t[6])} {copt(cs(t[7]) if t[7] is not None else None)})")
+        obs = clist([f"(mk_me {c_et((e.file_path, e.line, e.column, e.end_line, e.end_column, e.severity, e.message, e.errorcode))} "
+                     f"{clist([cs(h) for h in e.hints])})" for e in mes])
+        exprs.append(f"check_create_errors {clist([c_et(t) for t in ts])} {obs}")
+        metas.append(ts)
+        # JSONFormatter: one JSON object per MypyError carrying exactly its fields
+        for e in mes:
+            d = _json.loads(fmt.report_error(e))
+            if (d["file"], d["line"], d["column"], d["end_line"], d["end_column"], d["severity"], d["message"], d["code"]) != \
+                    (e.file_path, e.line, e.column, e.end_line, e.end_column, e.severity, e.message, e.errorcode) or \
+                    d["hint"] != (None if not e.hints else "\n".join(e.hints)):
+                bad_py += 1
+        # text: --pretty output minus the indented lines == plain output, one line per tuple
+        src = ["x = 1", "  y = f(2)", "z"]
+        for cols in (False, True):
+            o1, o2 = Options(), Options()
+            o1.pretty, o2.pretty = True, False
+            o1.show_column_numbers = o2.show_column_numbers = cols
+            p_lines = E.Errors(o1, hide_error_codes=False).format_messages_default(list(ts), src)
+            n_lines = E.Errors(o2, hide_error_codes=False).format_messages_default(list(ts), src)
+            want_extra = sum(2 for t in ts if t[5] == "error" and t[1] > 0)
+            if [l for l in p_lines if not l.startswith("    ")] != n_lines or len(n_lines) != len(ts) or len(p_lines) != len(ts) + want_extra:
+                bad_py += 1
+    res = ctx.eval_cases("render", COQ_HEADER, exprs, per_file=200)
+    if res is not None:
+        nbad = sum(1 for r in res if r != "true")
+        for ts, r in zip(metas, res):
+            if r != "true":
+                ctx.broke("C", "create_errors vs model", "check_create_errors = " + r, {"tuples": ts})
+                break
+        if bad_py:
+            ctx.broke("C", "JSONFormatter / format_messages_default shape", f"{bad_py} rendered lists do not have the modelled shape")
+        ctx.add("evaluations", 3 * len(exprs))
+        ctx.cov["render_cases"] = len(exprs)
+        ctx.log(f"C: {len(exprs)} tuple lists through create_errors / JSONFormatter / format_messages_default, {nbad + bad_py} disagreements")
 
 
 # ======================================================================================
 # P + A with the exit-status alternative
 # ======================================================================================
 
-def stage_P(ctx: Any, variant: str | None) -> str:
-    """Properties.v always; then coq/gen/ErrorsExit.v, which t13 copied from coq/C13/alt/ for the variant that applies
-    to the regenerated count_stats.  If that file does not build the other alternative is tried (silently) so that
-    the evidence says which theorem holds; if neither builds the obligation is broken."""
-    ctx.prove("C13/Properties.v", ["C13", "lib"])
+def prove_alternative(ctx: Any, rel: str, variant: str | None, variants: tuple[str, str], place: Any, labels: dict[str, str],
+                      what: str) -> str:
+    """Build coq/gen/<rel>, which t13 copied from coq/C13/alt/ for the variant that applies to the working tree (decided on
+    its syntax).  If it does not build, the other alternative is tried silently so that the evidence says which theorem
+    holds; if neither builds the obligation is broken."""
     if variant is None:
-        ctx.cov["exit_status_theorem"] = "translator failed: no exit-status theorem"
+        ctx.cov[what] = "translator failed: no theorem"
         return "broken"
-    order = [variant, "refuted" if variant == "truth" else "truth"]
+    order = [variant, variants[1] if variant == variants[0] else variants[0]]
     for k, v in enumerate(order):
         if k:
-            t13.place_exit(v)
-        vlib.coq_make(vlib.coq_deps_of("gen/ErrorsExit.v"))
-        st, out = vlib.coqc_file("gen/ErrorsExit.v")
+            place(v)
+        vlib.coq_make(vlib.coq_deps_of(rel))
+        st, out = vlib.coqc_file(rel)
         if st == 0:
-            ctx.prove("gen/ErrorsExit.v", ["C13", "lib"])
-            ctx.cov["exit_status_theorem"] = {
-                "truth": "exit_code_truth, exit_code_truth_final, exit_code_truth_limiter (count_stats is position-aware)",
-                "refuted": "exit_code_refuted (count_stats classifies by substring: finding F1)"}[v]
+            ctx.prove(rel, ["C13", "lib"])
+            ctx.cov[what] = labels[v]
             if k:
-                ctx.log(f"note: the syntactic choice was `{variant}` but only `{v}` builds")
+                ctx.log(f"note: the syntactic choice for {rel} was `{variant}` but only `{v}` builds")
             return v
-        ctx.log(f"gen/ErrorsExit.v (variant {v}) does not build: " + (out.strip().splitlines() or ["?"])[-1][:200])
-    t13.place_exit(variant)
-    ctx.prove("gen/ErrorsExit.v", ["C13", "lib"])      # records the broken obligation with its error
-    ctx.cov["exit_status_theorem"] = "neither exit_code_truth nor exit_code_refuted builds"
+        ctx.log(f"{rel} (variant {v}) does not build: " + (out.strip().splitlines() or ["?"])[-1][:200])
+    place(variant)
+    ctx.prove(rel, ["C13", "lib"])      # records the broken obligation with its error
+    ctx.cov[what] = "no alternative builds"
     return "broken"
+
+
+def stage_P(ctx: Any, variant: str | None, wvariant: str | None) -> tuple[str, str]:
+    ctx.prove("C13/Properties.v", ["C13", "lib"])
+    v1 = prove_alternative(ctx, "gen/ErrorsExit.v", variant, ("truth", "refuted"), t13.place_exit, {
+        "truth": "exit_code_truth, exit_code_truth_final, exit_code_truth_limiter (count_stats is position-aware)",
+        "refuted": "exit_code_refuted (count_stats classifies by substring: finding F1)"}, "exit_status_theorem")
+    v2 = prove_alternative(ctx, "gen/ErrorsWatch.v", wvariant, ("reentry", "bypass"), t13.place_watch, {
+        "reentry": "watcher_reentry_refuted_current (attached notes go through _filter_error again)",
+        "bypass": "ignore_exact_with_watchers_current, watchers_independent_of_ignores_current"}, "watcher_theorem")
+    return v1, v2
 
 
 # ======================================================================================
@@ -1174,24 +1343,25 @@ def run(ctx: Any) -> None:
         "hash-order of the code list in 'use narrower [...]'",
         "translator tools/extractors/t13.py + tools/py2gallina.py (checked by self-correspondence on every run); vm_compute for the model",
     ]
-    variant = None
+    variant = wvariant = None
     try:
         t13.generate()
         variant = t13.exit_variant()
+        wvariant = t13.watch_variant()
     except (Unsupported, Exception) as e:  # noqa: BLE001
         ctx.broke("T", "t13 translator", repr(e))
-    verdict = stage_P(ctx, variant)
+    verdict, wverdict = stage_P(ctx, variant, wvariant)
     stage_C(ctx)
-    stage_S(ctx, verdict)
+    stage_S(ctx, verdict, wverdict)
 
 
-def stage_S(ctx: Any, verdict: str) -> None:
+def stage_S(ctx: Any, verdict: str, wverdict: str = "reentry") -> None:
     rng = vlib.Rng(ctx.seed, "C13-S")
     jobs = corpus(vlib.REPO)
     ctx.cov["corpus_programs"] = len(jobs)
     rng.shuffle(jobs)
     pinned = [j for j in jobs if j["name"] in PINNED]           # past findings: always in the sample
-    jobs = pinned + [j for j in jobs if j["name"] not in PINNED][: int(os.environ.get("VERIF_C13_PROGRAMS", ctx.n(350, 2500)))]
+    jobs = pinned + [j for j in jobs if j["name"] not in PINNED][: int(os.environ.get("VERIF_C13_PROGRAMS", ctx.n(260, 2200)))]
     for k, j in enumerate(jobs):
         j["seed"] = f"{ctx.seed}/{j['name']}"
         j["max_variants"] = ctx.n(6, 12)
@@ -1206,12 +1376,16 @@ def stage_S(ctx: Any, verdict: str) -> None:
     suppressed = 0
     skipped: dict[str, int] = {}
     f1_seen = None
+    json_notes_seen = None
+    dep_seen = False
     for r in results:
         if "status" in r:   # api run
             runs += 1
             if r["status"] != r["expected"]:
                 if r["f1"]:
                     f1_seen = f1_seen or {"kind": "api.run", **r}
+                elif r["name"].startswith("json-") and r["status"] == 1 and r["expected"] == 0:
+                    json_notes_seen = json_notes_seen or {"kind": "api.run", **r}
                 else:
                     ctx.violation(f"exit-status:{r['name']}", f"mypy exits {r['status']} but the printed messages imply {r['expected']}", r)
             continue
@@ -1226,6 +1400,8 @@ def stage_S(ctx: Any, verdict: str) -> None:
             if p["kind"] == "exit":
                 if p["f1"]:
                     f1_seen = f1_seen or {"program": r["name"], **p}
+                elif p.get("json_notes"):
+                    json_notes_seen = json_notes_seen or {"program": r["name"], **p}
                 else:
                     ctx.violation(f"exit-status:{r['name']}:{p['label']}", f"exit status {p['exit']} but messages imply {p['expected']}", {"case": r["name"], **p})
             elif p["kind"] == "disabled-code-leak":
@@ -1233,7 +1409,11 @@ def stage_S(ctx: Any, verdict: str) -> None:
                               "--disable-error-code X does not remove an [X] diagnostic that is reported before the file's ignore "
                               "comments are registered (e.g. inline `# mypy:` configuration errors): add_error_info only consults "
                               "is_ignored_error `if file in self.ignored_lines`", {"case": r["name"], **p})
+            elif p["kind"] == "render-changes-messages":
+                ctx.violation(f"render-changes-messages:{r['name']}:{p['label']}", "the output format changed which messages are reported",
+                              {"case": r["name"], **p})
             elif p["kind"] == "stream-depends-on-ignore" and p.get("deprecated_cover"):
+                dep_seen = True
                 ctx.violation("non-matching-ignore-adds-diagnostics:deprecated-not-covered-note-trips-error-watcher",
                               "a `# type: ignore[other-code]` comment on a line with a [deprecated] warning makes mypy report additional, bogus "
                               "diagnostics (e.g. 'Unsupported operand types for +'): the 'not covered' note emitted inside add_error_info is "
@@ -1251,6 +1431,16 @@ def stage_S(ctx: Any, verdict: str) -> None:
     if f1_seen is not None:
         ctx.violation(F1_KEY, "an error message whose text contains ': note:' is counted as a note by util.count_stats: mypy prints the "
                       "error (and 'Found 1 error') but exits with status 0", f1_seen)
+    if json_notes_seen is not None:
+        ctx.violation("exit-status-1-without-error:output-json-notes-only",
+                      "with --output json a run that reports only notes exits with status 1 (text output: 0): the JSON lines carry no "
+                      "': note:' marker, so util.count_stats counts no note and main() takes `n_notes < len(messages)`", json_notes_seen)
+    pinned_ran = any(r.get("name") == "check-deprecated.test::testDeprecatedSpecialMethods" and not r.get("skipped") for r in results)
+    if wverdict == "reentry" and pinned_ran and not dep_seen:
+        ctx.broke("C", "watcher_reentry_refuted witness", "the model refutes watcher independence for this code shape but the pinned "
+                  "program did not reproduce the effect on real mypy")
+    if wverdict == "bypass" and dep_seen:
+        ctx.broke("C", "watchers_independent_of_ignores", "the positive theorem builds but real mypy still shows the re-entry effect")
     if verdict == "refuted" and f1_seen is None:
         ctx.broke("C", "exit_code_refuted witness", "the model refutes exit_code_truth but the witness program did not reproduce on real mypy")
     if verdict == "truth" and f1_seen is not None:
